@@ -669,12 +669,30 @@ def expand_template(tpl_text: str, repo_root: str, cache: Optional[dict] = None)
                 raise LostAnchor(f"source file {rel} not found")
         src = cache[path]
         src_rel = rel
+        if ipath == "*":
+            # every top-level item of the file except `use`, `mod` and macro invocations; attributes kept, verbatim
+            skip = set(x.strip() for x in opts.get("skip", "").split(",") if x.strip())
+            for it in src.items:
+                if it.kw in ("use", "mod", "macrocall", "extern") or it.name in skip:
+                    continue
+                text = apply_substs(src.item_text_with_attrs(it), [sb for sb in sp.substs if sb[0] in src.item_text_with_attrs(it)], f"{rel}: `{it.key}`")
+                info = src.item_info(it)
+                info["file"] = src_rel
+                info["path"] = it.key
+                info["deviations"] = [f"subst {o!r}->{n!r}" for o, n, c in sp.substs if o in src.item_text_with_attrs(it)]
+                info["spliced"] = None
+                infos.append(info)
+                first_line = len(out_lines) + 1
+                out_lines.extend(text.split("\n"))
+                out_lines.append("")
+                line_map.append((first_line, len(out_lines), f"{rel}::{it.key}"))
+            continue
         it = src.find(ipath)
         mode = opts.get("mode", "fn" if it.kw == "fn" and it.body_open is not None else "item")
         if mode == "fn":
             text = splice_fn(src, it, sp)
         else:
-            text = src.item_text(it)
+            text = src.item_text_with_attrs(it) if opts.get("attrs", "keep") == "keep" else src.item_text(it)
             if sp.vis in ("private", "pub") and text.startswith("pub"):
                 text = re.sub(r"^pub(\([^)]*\))?\s*", "pub " if sp.vis == "pub" else "", text)
             text = (sp.attrs + "\n" if sp.attrs else "") + apply_substs(text, sp.substs, f"{rel}: `{ipath}`")
